@@ -192,3 +192,282 @@ theorem instantiate_ok {W : World} {n : Name} (h : instantiate W n = .ok) :
       exact ⟨c, rfl, ha, this.1, this.2⟩
 
 end Proofs.Inst
+
+/-! ### the converse: a refusal names a real gap -/
+namespace Proofs.Inst
+open Model.Inst Spec.Inst
+
+theorem append_got {a b : Coll} {l : List (Name × Name)} (h : Coll.append a b = .got l) :
+    ∃ la lb, a = .got la ∧ b = .got lb ∧ l = la ++ lb := by
+  cases a with
+  | fuel => simp [Coll.append] at h
+  | err => simp [Coll.append] at h
+  | got x =>
+    cases b with
+    | fuel => simp [Coll.append] at h
+    | err => simp [Coll.append] at h
+    | got y =>
+      simp only [Coll.append, Coll.got.injEq] at h
+      exact ⟨x, y, rfl, rfl, h.symm⟩
+
+theorem collAll_got {g : Name → Coll} : ∀ {xs : List Name} {l : List (Name × Name)}, collAll g xs = .got l →
+    ∀ e, e ∈ l → ∃ x l', x ∈ xs ∧ g x = .got l' ∧ e ∈ l'
+  | [], l, h => by
+    simp only [collAll, Coll.got.injEq] at h
+    subst h
+    intro e he; cases he
+  | y :: r, l, h => by
+    intro e he
+    unfold collAll at h
+    cases hg : g y with
+    | fuel => rw [hg] at h; cases h
+    | err => rw [hg] at h; cases h
+    | got a =>
+      rw [hg] at h
+      simp only [] at h
+      obtain ⟨la, lb, h1, h2, h3⟩ := append_got h
+      have hla : la = a := by cases h1; rfl
+      subst h3
+      cases List.mem_append.mp he with
+      | inl h' => exact ⟨y, a, List.mem_cons_self, hg, hla ▸ h'⟩
+      | inr h' =>
+        obtain ⟨x, l', hx, hgx, hel⟩ := collAll_got h2 e h'
+        exact ⟨x, l', List.mem_cons_of_mem _ hx, hgx, hel⟩
+
+theorem ownMissing_got {impl : Name → Option Bool} {o : Name} :
+    ∀ {ms : List Name} {l : List (Name × Name)}, ownMissing impl o ms = .got l →
+      ∀ e, e ∈ l → e.2 ∈ ms ∧ impl e.2 = some false
+  | [], l, h => by
+    simp only [ownMissing, Coll.got.injEq] at h
+    subst h
+    intro e he; cases he
+  | y :: r, l, h => by
+    intro e he
+    unfold ownMissing at h
+    cases hi : impl y with
+    | none => rw [hi] at h; cases h
+    | some b =>
+      rw [hi] at h
+      cases b with
+      | true =>
+        simp only [] at h
+        obtain ⟨h1, h2⟩ := ownMissing_got h e he
+        exact ⟨List.mem_cons_of_mem _ h1, h2⟩
+      | false =>
+        simp only [] at h
+        obtain ⟨la, lb, h1, h2, h3⟩ := append_got h
+        cases h1
+        subst h3
+        cases List.mem_append.mp he with
+        | inl h' =>
+          simp only [List.mem_singleton] at h'
+          subst h'
+          exact ⟨List.mem_cons_self, hi⟩
+        | inr h' =>
+          obtain ⟨h1, h2⟩ := ownMissing_got h2 e h'
+          exact ⟨List.mem_cons_of_mem _ h1, h2⟩
+
+theorem ifaceMissing_got {W : World} {impl : Name → Option Bool} : ∀ (f : Nat) (i : Name) (l : List (Name × Name)),
+    ifaceMissing W impl f i = .got l →
+    ∀ e, e ∈ l → impl e.2 = some false ∧ ∃ j d, IReach W i j ∧ getIface W j = some d ∧ e.2 ∈ d.meths
+  | 0, _, _, h => by simp [ifaceMissing] at h
+  | f+1, i, l, h => by
+    intro e he
+    unfold ifaceMissing at h
+    cases hg : getIface W i with
+    | none => rw [hg] at h; cases h
+    | some d =>
+      rw [hg] at h
+      simp only [] at h
+      obtain ⟨la, lb, h1, h2, h3⟩ := append_got h
+      subst h3
+      cases List.mem_append.mp he with
+      | inl h' =>
+        obtain ⟨hm, hi⟩ := ownMissing_got h1 e h'
+        exact ⟨hi, i, d, IReach.refl i, hg, hm⟩
+      | inr h' =>
+        obtain ⟨k, l', hk, hgk, hel⟩ := collAll_got h2 e h'
+        obtain ⟨hi, j, d', hr, hj, hm⟩ := ifaceMissing_got f k l' hgk e hel
+        exact ⟨hi, j, d', IReach.step hg hk hr, hj, hm⟩
+
+/-- `m` is required of a class below `p` because of `p` or a class above it -/
+def ReqFrom (W : World) (p : ACls) (m : Name) : Prop :=
+  (∃ a, Anc W p a ∧ m ∈ a.abstr) ∨
+  (∃ a i j d, Anc W p a ∧ i ∈ a.impl ∧ IReach W i j ∧ getIface W j = some d ∧ m ∈ d.meths)
+
+theorem parentMissing_got {W : World} {impl : Name → Option Bool} : ∀ (f : Nat) (p : ACls) (l : List (Name × Name)),
+    parentMissing W impl f p = .got l → ∀ e, e ∈ l → impl e.2 = some false ∧ ReqFrom W p e.2
+  | 0, _, _, h => by simp [parentMissing] at h
+  | f+1, p, l, h => by
+    intro e he
+    unfold parentMissing at h
+    obtain ⟨la, lbc, h1, h23, h3⟩ := append_got h
+    obtain ⟨lb, lc, h2, hc, h4⟩ := append_got h23
+    subst h3; subst h4
+    cases List.mem_append.mp he with
+    | inl h' =>
+      obtain ⟨hm, hi⟩ := ownMissing_got h1 e h'
+      exact ⟨hi, Or.inl ⟨p, Anc.refl p, hm⟩⟩
+    | inr h' =>
+      cases List.mem_append.mp h' with
+      | inl h'' =>
+        obtain ⟨i, l', hi, hgi, hel⟩ := collAll_got h2 e h''
+        obtain ⟨him, j, d, hr, hj, hm⟩ := ifaceMissing_got _ i l' hgi e hel
+        exact ⟨him, Or.inr ⟨p, i, j, d, Anc.refl p, hi, hr, hj, hm⟩⟩
+      | inr h'' =>
+        cases hext : p.ext with
+        | none =>
+          rw [hext] at hc
+          simp only [Coll.got.injEq] at hc
+          subst hc
+          cases h''
+        | some g =>
+          rw [hext] at hc
+          simp only [] at hc
+          cases hg : getClass W g with
+          | none => rw [hg] at hc; cases hc
+          | some gd =>
+            rw [hg] at hc
+            simp only [] at hc
+            obtain ⟨him, hreq⟩ := parentMissing_got f gd lc hc e h''
+            refine ⟨him, ?_⟩
+            cases hreq with
+            | inl hr =>
+              obtain ⟨a, ha, hm⟩ := hr
+              exact Or.inl ⟨a, Anc.step hext hg ha, hm⟩
+            | inr hr =>
+              obtain ⟨a, i, j, d, ha, hi, hrr, hj, hm⟩ := hr
+              exact Or.inr ⟨a, i, j, d, Anc.step hext hg ha, hi, hrr, hj, hm⟩
+
+theorem implementsM_false {W : World} {m : Name} : ∀ (f : Nat) (c : ACls),
+    implementsM W m f c = some false → ¬ Provides W c m
+  | 0, _, h => by simp [implementsM] at h
+  | f+1, c, h => by
+    unfold implementsM at h
+    by_cases hc : c.concrete.contains m = true
+    · rw [if_pos hc] at h; cases h
+    · rw [if_neg hc] at h
+      have hnm : m ∉ c.concrete := by simpa using hc
+      intro ⟨a, ha, hm⟩
+      cases ha with
+      | refl => exact hnm hm
+      | step hext hget hrest =>
+        rw [hext] at h
+        simp only [] at h
+        rw [hget] at h
+        simp only [] at h
+        exact implementsM_false f _ h ⟨a, hrest, hm⟩
+
+theorem validate_missing {W : World} {c : ACls} (h : validate W c = .missing) : ¬ Complete W c := by
+  unfold validate at h
+  by_cases ha : c.abstr ≠ []
+  · rw [if_pos ha] at h; cases h
+  · rw [if_neg ha] at h
+    cases hc : collect W c with
+    | fuel => rw [hc] at h; cases h
+    | err => rw [hc] at h; cases h
+    | got l =>
+      rw [hc] at h
+      cases l with
+      | nil => cases h
+      | cons e rest =>
+        unfold collect at hc
+        simp only [] at hc
+        obtain ⟨la, lb, h1, h2, h3⟩ := append_got hc
+        have he : e ∈ la ++ lb := by rw [← h3]; exact List.mem_cons_self
+        intro hcomp
+        have key : implementsM W e.2 (fuelC W) c = some false ∧ Requires W c e.2 := by
+          cases List.mem_append.mp he with
+          | inl h' =>
+            obtain ⟨i, l', hi, hgi, hel⟩ := collAll_got h1 e h'
+            obtain ⟨him, j, d, hr, hj, hm⟩ := ifaceMissing_got _ i l' hgi e hel
+            exact ⟨him, Or.inr ⟨c, i, j, d, Anc.refl c, hi, hr, hj, hm⟩⟩
+          | inr h' =>
+            cases hext : c.ext with
+            | none =>
+              rw [hext] at h2
+              simp only [Coll.got.injEq] at h2
+              subst h2
+              cases h'
+            | some p =>
+              rw [hext] at h2
+              simp only [] at h2
+              cases hg : getClass W p with
+              | none => rw [hg] at h2; cases h2
+              | some d =>
+                rw [hg] at h2
+                simp only [] at h2
+                obtain ⟨him, hreq⟩ := parentMissing_got _ d lb h2 e h'
+                refine ⟨him, ?_⟩
+                cases hreq with
+                | inl hr =>
+                  obtain ⟨a, ha, hm⟩ := hr
+                  exact Or.inl ⟨p, d, a, hext, hg, ha, hm⟩
+                | inr hr =>
+                  obtain ⟨a, i, j, d', ha, hi, hrr, hj, hm⟩ := hr
+                  exact Or.inr ⟨a, i, j, d', Anc.step hext hg ha, hi, hrr, hj, hm⟩
+        exact implementsM_false _ _ key.1 (hcomp _ key.2)
+
+theorem validate_selfAbstract {W : World} {c : ACls} (h : validate W c = .selfAbstract) : c.abstr ≠ [] := by
+  unfold validate at h
+  by_cases ha : c.abstr ≠ []
+  · exact ha
+  · rw [if_neg ha] at h
+    cases hc : collect W c with
+    | fuel => rw [hc] at h; cases h
+    | err => rw [hc] at h; cases h
+    | got l => rw [hc] at h; cases l <;> cases h
+
+/-- a refusal for incompleteness comes from a non-abstract class in the chain that fails its validation -/
+theorem instChain_refusal {W : World} : ∀ (f : Nat) (c : ACls) (r : InstOut), instChain W f c = r →
+    r = .missing ∨ r = .selfAbstract → ∃ a, Anc W c a ∧ a.isAbstract = false ∧ validate W a = r
+  | 0, _, r, h, hr => by
+    simp only [instChain] at h
+    subst h
+    cases hr with
+    | inl h => cases h
+    | inr h => cases h
+  | f+1, c, r, h, hr => by
+    unfold instChain at h
+    cases ha : c.isAbstract with
+    | true =>
+      rw [ha] at h
+      simp only [if_true] at h
+      cases hext : c.ext with
+      | none => rw [hext] at h; subst h; cases hr with | inl h => cases h | inr h => cases h
+      | some p =>
+        rw [hext] at h
+        simp only [] at h
+        cases hg : getClass W p with
+        | none => rw [hg] at h; subst h; cases hr with | inl h => cases h | inr h => cases h
+        | some d =>
+          rw [hg] at h
+          simp only [] at h
+          obtain ⟨a, haa, hab, hv⟩ := instChain_refusal f d r h hr
+          exact ⟨a, Anc.step hext hg haa, hab, hv⟩
+    | false =>
+      rw [ha] at h
+      simp only [Bool.false_eq_true, if_false] at h
+      cases hv : validate W c with
+      | ok =>
+        rw [hv] at h
+        simp only [] at h
+        cases hext : c.ext with
+        | none => rw [hext] at h; subst h; cases hr with | inl h => cases h | inr h => cases h
+        | some p =>
+          rw [hext] at h
+          simp only [] at h
+          cases hg : getClass W p with
+          | none => rw [hg] at h; subst h; cases hr with | inl h => cases h | inr h => cases h
+          | some d =>
+            rw [hg] at h
+            simp only [] at h
+            obtain ⟨a, haa, hab, hv'⟩ := instChain_refusal f d r h hr
+            exact ⟨a, Anc.step hext hg haa, hab, hv'⟩
+      | abstr => rw [hv] at h; subst h; exact ⟨c, Anc.refl c, ha, hv⟩
+      | noClass => rw [hv] at h; subst h; exact ⟨c, Anc.refl c, ha, hv⟩
+      | selfAbstract => rw [hv] at h; subst h; exact ⟨c, Anc.refl c, ha, hv⟩
+      | missing => rw [hv] at h; subst h; exact ⟨c, Anc.refl c, ha, hv⟩
+      | stuck => rw [hv] at h; subst h; exact ⟨c, Anc.refl c, ha, hv⟩
+
+end Proofs.Inst
